@@ -131,6 +131,14 @@ Section DiffModel.
     | None => map (fun e => Added (fst e)) right
     end.
 
+  (** the paths an entry / a report talks about *)
+  Definition mention (e : diff_entry) : list P :=
+    match e with
+    | Added p | Modified p | Deleted p => [p]
+    | Renamed o r => o ++ r
+    end.
+  Definition mentions (ds : list diff_entry) : list P := flat_map mention ds.
+
   (** Applying a report to the path set of the left state (the reading of the
       property: "applying the report to the left state yields the right state"):
       drop the Deleted paths and the originals of renames, add the Added paths and
@@ -248,6 +256,7 @@ Arguments aget {D} deqb {V}. Arguments aset {D} deqb {V}. Arguments adel {D} deq
 Arguments sort_insert {P}. Arguments sort_paths {P}.
 Arguments left_step {P D}. Arguments right_step {P D}. Arguments flush {P D}.
 Arguments left_loop {P D}. Arguments right_loop {P D}.
+Arguments mention {P}. Arguments mentions {P}.
 Arguments removed {P}. Arguments inserted {P}. Arguments apply_diff {P}.
 Arguments diff {P D}. Arguments diff_versions {P D}. Arguments diff_staged {P D}.
 Arguments file_versions_loop {P D}. Arguments list_file_versions {P D}.
